@@ -1778,6 +1778,11 @@ class ObjectIdentifier(Atomic):
             raise ValueError("invalid constructor parameters")
 
     def set_tuple(self, objType, objInstance):
+        # the type enumeration builds its table when it is first used,
+        # which may be now
+        if '_xlate_table' not in self.objectTypeClass.__dict__:
+            expand_enumerations(self.objectTypeClass)
+
         # allow a type name as well as an integer
         if isinstance(objType, int):
             # try and make it pretty
